@@ -209,7 +209,7 @@ def asan_signature(text):
     return kind + "|" + "|".join(frames)
 
 
-def run_engine(binary, engine, count, seed, opts=None, nshards=None, env_extra=None, timeout_case=120, build_name="dbg", stall_is="inconclusive"):
+def run_engine(binary, engine, count, seed, opts=None, nshards=None, env_extra=None, timeout_case=120, build_name="dbg", stall_is="inconclusive", alloc_failure_is="inconclusive"):
     """Runs `count` cases of `engine` over a pool of worker processes. A worker that dies is
     restarted after the case it died in; that case becomes a failure (crash) or inconclusive
     (resource / watchdog)."""
@@ -304,7 +304,12 @@ def run_engine(binary, engine, count, seed, opts=None, nshards=None, env_extra=N
                         res.inconclusive.append(rec)
             else:
                 kind, text = classify_death(rc, tail)
-                if kind == "resource":
+                if kind == "resource" and alloc_failure_is == "failure" and "allocation failure" in text:
+                    # inputs of this engine are tiny: exhausting the arena on them is a defect, not memory pressure
+                    with lock:
+                        res.failures.append({"idx": last_begin, "sig": "arena-exhausted-on-small-input", "detail": {"stderr": tail[-600:]},
+                                             "replay": {"engine": engine, "seed": seed, "idx": last_begin, "opts": opts}, "build": build_name})
+                elif kind == "resource":
                     with lock:
                         res.inconclusive.append({"idx": last_begin, "why": text, "detail": {}})
                 else:
